@@ -528,7 +528,7 @@ func (e *Engine) uncaught(st *State) {
 		e.violTags[tag+p.Where] = true
 		r, m := e.solver.Check(st.pc, nil, e.nondetVars(st))
 		if r == Sat {
-			e.rep.Violations = append(e.rep.Violations, Violation{Tag: tag, Kind: "panic", Where: p.Where, Model: m, Tape: e.tapeFromModel(st, m), Detail: describe(p.Val)})
+			e.rep.Violations = append(e.rep.Violations, Violation{Tag: tag, Kind: "panic", Where: p.Where, Model: m, Tape: e.tapeFromModel(st, m), Detail: describe(p.Val), UF: e.ufTable(st, m)})
 		} else if r == Unknown {
 			e.rep.Inconclusive = appendUniq(e.rep.Inconclusive, "panic path feasibility undecided @ "+p.Where)
 		}
